@@ -56,7 +56,10 @@ func validateContractRenewal(existing types.FileContractRevision, renewal types.
 		return types.ZeroCurrency, types.ZeroCurrency, errors.New("incorrect unlock hash")
 	}
 
-	expectedBurn := baseStorageRevenue.Add(baseRiskedCollateral)
+	expectedBurn, overflow := baseStorageRevenue.AddWithOverflow(baseRiskedCollateral)
+	if overflow {
+		return types.ZeroCurrency, types.ZeroCurrency, errors.New("expected host burn overflows")
+	}
 	hostBurn, underflow := renewal.ValidHostPayout().SubWithUnderflow(renewal.MissedHostPayout())
 	if underflow {
 		return types.ZeroCurrency, types.ZeroCurrency, errors.New("host valid payout must be greater than host missed payout")
@@ -75,7 +78,10 @@ func validateContractRenewal(existing types.FileContractRevision, renewal types.
 
 	// calculate the locked collateral as the difference between the valid host
 	// payout and the base revenue
-	minValidPayout := pt.ContractPrice.Add(baseStorageRevenue)
+	minValidPayout, overflow := pt.ContractPrice.AddWithOverflow(baseStorageRevenue)
+	if overflow {
+		return types.ZeroCurrency, types.ZeroCurrency, errors.New("minimum host valid payout overflows")
+	}
 	lockedCollateral, underflow = renewal.ValidHostPayout().SubWithUnderflow(minValidPayout)
 	if underflow {
 		return types.ZeroCurrency, types.ZeroCurrency, fmt.Errorf("insufficient host valid payout: expected at least %d got %d", minValidPayout, renewal.ValidHostPayout())
@@ -89,4 +95,34 @@ func validateContractRenewal(existing types.FileContractRevision, renewal types.
 		return types.ZeroCurrency, types.ZeroCurrency, fmt.Errorf("insufficient host missed payout: expected at least %d got %d", minMissedPayout, renewal.MissedHostPayout())
 	}
 	return riskedCollateral, lockedCollateral, nil
+}
+
+// renewalBaseCosts calculates the "base" storage cost to the renter and risked
+// collateral for the host for the data already in the contract. If the contract
+// height did not increase, base costs are zero since the storage is already
+// paid for. The file size and window end of the renewal are chosen by the
+// renter, an error is returned if the costs overflow.
+func renewalBaseCosts(existing types.FileContractRevision, renewal types.FileContract, pt rhp3.HostPriceTable) (baseRevenue, baseCollateral types.Currency, err error) {
+	baseRevenue = pt.RenewContractCost
+	if renewal.WindowEnd <= existing.WindowEnd {
+		return baseRevenue, types.ZeroCurrency, nil
+	}
+	extension := uint64(renewal.WindowEnd - existing.WindowEnd)
+	storageCost, overflow := pt.WriteStoreCost.Mul64WithOverflow(renewal.Filesize)
+	if !overflow {
+		storageCost, overflow = storageCost.Mul64WithOverflow(extension)
+	}
+	if !overflow {
+		baseRevenue, overflow = baseRevenue.AddWithOverflow(storageCost)
+	}
+	if !overflow {
+		baseCollateral, overflow = pt.CollateralCost.Mul64WithOverflow(renewal.Filesize)
+	}
+	if !overflow {
+		baseCollateral, overflow = baseCollateral.Mul64WithOverflow(extension)
+	}
+	if overflow {
+		return types.ZeroCurrency, types.ZeroCurrency, errors.New("renewal costs overflow")
+	}
+	return baseRevenue, baseCollateral, nil
 }
